@@ -280,10 +280,11 @@ Definition add_mm_item (item : list (option val)) (st : option val) (b : blk) : 
     let b' := mkBlk (upd_earliest b (nth_o item 0%nat)) (b_bpi b) (b_bp b) (with_stats (b_stats b) st) (b_tb b)
                     (b_qrs b) (b_aecs b) (b_mms b ++ [VR item]) in (b', blk_full b')
   else (b, blk_full b).
-(* add_address_event_count(const AddressEventCount&): key = [type; code; address index; transport flags], the count is the map's *)
+(* add_address_event_count(const AddressEventCount&): the map key is the whole object [type; code; address index; transport flags;
+   ae_count as the application set it] (operator== compares ae_count too); the count that is serialised is the map's *)
 Definition add_aec_item (key : list (option val)) (st : option val) (b : blk) : blk * bool :=
   if negb (N.testbit (h_other (b_bp b)) 1) then (b, false) else
-  let k := VR [nth_o key 0%nat; nth_o key 1%nat; nth_o key 2%nat; nth_o key 3%nat; Some (VN 0)] in
+  let k := VR [nth_o key 0%nat; nth_o key 1%nat; nth_o key 2%nat; nth_o key 3%nat; nth_o key 4%nat] in
   let b' := mkBlk (b_earliest b) (b_bpi b) (b_bp b) (with_stats (b_stats b) st) (b_tb b) (b_qrs b) (aec_bump (b_aecs b) k) (b_mms b) in
   (b', blk_full b').
 
